@@ -391,7 +391,7 @@ struct ChainStats {
 
 enum ChainResult {
     /// b0 is outside the quantifier (not warning-free)
-    Skipped(&'static str),
+    Skipped(String),
     /// a violation or panic was reported
     Reported,
     Held(ChainStats),
@@ -418,14 +418,21 @@ fn chain(obs: &mut Obs, rng: &mut Rng, b0: &[u8], fmt_k: u64, how: &dyn Fn() -> 
     let o1 = guarded!("b0->PL1", tfm::algorithms::tfm_to_pl(b0, 3, &|_| fmt));
     let o1 = match o1 {
         Ok(o) => o,
-        Err(_) => return ChainResult::Skipped("b0-fmt-error"),
+        Err(_) => return ChainResult::Skipped("b0-fmt-error".into()),
     };
     let pl1 = match o1.pl_data {
         Ok(s) => s,
-        Err(_) => return ChainResult::Skipped("b0-rejected-by-reader"),
+        Err(e) => return ChainResult::Skipped(format!("b0-rejected-by-reader:{}", variant_name(&e))),
     };
     if !o1.error_messages.is_empty() {
-        return ChainResult::Skipped("b0-has-warnings");
+        let kind = match &o1.error_messages[0] {
+            tfm::algorithms::TfmToPlErrorMessage::DeserializationWarning(w) => variant_name(w),
+            tfm::algorithms::TfmToPlErrorMessage::ValidationWarning(tfm::ValidationWarning::LigKernWarning(w)) => {
+                format!("LigKern-{}", variant_name(w))
+            }
+            tfm::algorithms::TfmToPlErrorMessage::ValidationWarning(w) => variant_name(w),
+        };
+        return ChainResult::Skipped(format!("b0-has-warnings:{kind}"));
     }
     // PL1 -> b1
     let (b1, w1) = guarded!("PL1->b1", tfm::algorithms::pl_to_tfm(&pl1));
